@@ -53,6 +53,16 @@ Theorem C05_spec_stable_under_growth : forall ws q n E1 E2 a b, submap E1 E2 -> 
   fc_spec ws q n E2 a b = fc_spec ws q n E1 a b.
 Proof. exact fc_spec_submap. Qed.
 
+(* Flush / DropNotFlushed: in every history of well-formed Adds, Flushes and Drops both the flushed
+   and the current view satisfy the invariant (so every query on either equals the specification) *)
+Theorem C05_flush_drop_histories : forall n ops st, vinv n (vs_flushed st) -> vinv n (vs_cur st) ->
+  wf_vops n (evs (vs_flushed st)) (evs (vs_cur st)) ops ->
+  let st' := fold_left vs_step ops st in vinv n (vs_flushed st') /\ vinv n (vs_cur st').
+Proof. exact vstore_inv. Qed.
+Theorem C05_query_from_invariant : forall n s ws q a b ea eb, vinv n s -> 0 < q -> evt s a ea -> evt s b eb ->
+  fc ws q s a b = fc_spec ws q n (evs s) a b.
+Proof. intros n s ws q a b ea eb I. exact (fc_eq_spec n s I ws q a b ea eb). Qed.
+
 (* the executable hypothesis check run by the driver on every generated stream *)
 Theorem C05_wf_check_is_hypothesis : forall n E e, wf_evb n E e = true <-> wf_ev n E e.
 Proof. exact wf_evb_iff. Qed.
@@ -94,3 +104,5 @@ Print Assumptions C05_order_independent.
 Print Assumptions C05_cached_queries_equal_spec.
 Print Assumptions C05_spec_stable_under_growth.
 Print Assumptions C05_wf_check_is_hypothesis.
+Print Assumptions C05_flush_drop_histories.
+Print Assumptions C05_query_from_invariant.
